@@ -9,6 +9,7 @@ import (
 
 	"go.nanomsg.org/mangos/v3"
 	"go.nanomsg.org/mangos/v3/protocol/req"
+	"go.nanomsg.org/mangos/v3/vh/c16"
 	"go.nanomsg.org/mangos/v3/vh/kit"
 	"go.nanomsg.org/mangos/v3/vh/vt"
 	"go.nanomsg.org/mangos/v3/vz/vexplore"
@@ -27,6 +28,8 @@ func init() {
 			{Name: fmt.Sprintf("req-retry-hist-R0-D%d", d), Mode: "hist", Reset: kit.ResetGlobals, Body: func() { hist(d, 0) },
 				NeedCounters: []string{"cancel-on-loss"}},
 			{Name: fmt.Sprintf("req-slow-peer-hist-D%d", d), Mode: "hist", Reset: kit.ResetGlobals, Body: func() { SlowPeerHist(d) }},
+			{Name: "req-newcomer-while-every-peer-is-busy", Mode: "enum", Reset: kit.ResetGlobals, Body: newcomerWhileBusy, NeedCounters: []string{"waiting-request-went-to-the-newcomer"}},
+			{Name: "stream-write-fails-then-retransmission", Mode: "enum", Reset: kit.ResetGlobals, Body: c16.WriteFailsThenRetransmit, NeedCounters: []string{"retransmitted-intact"}},
 			{Name: "req-retry-sched-timer-vs-reply", Mode: "sched", Bound: map[string]int{"quick": 1, "thorough": 2}[tier], Reset: kit.ResetGlobals,
 				Cfg: cfgEarly(), Body: schedTimerVsReply},
 		}
@@ -577,6 +580,86 @@ func schedTimerVsReply() {
 // slow peers: connections that take a message only when the harness says so.  The safety clauses
 // only: whatever is on the wire belongs to a request, byte-identical, never after the request was
 // answered / cancelled; Recv returns the reply to the current request or nothing; no crash, no wedge.
+
+// newcomerWhileBusy: one or two peers are connected and every one of them is busy (a request was
+// handed to it and the write has not completed: the peer reads nothing).  A request is waiting for a
+// ready peer - the retransmission of the first request, due because the retry interval has elapsed,
+// or a request another context has sent meanwhile.  Then a new peer connects and reads everything:
+// the waiting request is transmitted to it, byte-identical where it is a retransmission.
+func newcomerWhileBusy() {
+	R := 10 * time.Second
+	busy := 1 + kit.ChooseFree(2)
+	how := kit.ChooseFree(2) // 0: retransmission due, 1: another context's request
+	s, err := req.NewSocket()
+	if err != nil {
+		kit.Failf("setup", "NewSocket: %v", err)
+	}
+	_ = s.SetOption(mangos.OptionRetryTime, R)
+	ep := vt.Get("busy")
+	ep.HoldNew = true
+	if err := s.Listen("vt://busy"); err != nil {
+		kit.Failf("setup", "Listen: %s", kit.ErrName(err))
+	}
+	var pipes []*vt.Pipe
+	var ctxs []mangos.Context
+	for i := 0; i < busy; i++ {
+		pipes = append(pipes, ep.Connect())
+		kit.Quiesce()
+		c, err := s.OpenContext()
+		if err != nil {
+			kit.Failf("setup", "OpenContext: %v", err)
+		}
+		ctxs = append(ctxs, c)
+		body := fmt.Sprintf("occupies-%d", i)
+		sc := kit.Start("Send", func() (interface{}, error) { return nil, kit.SendBytes(c, []byte(body)) })
+		kit.Quiesce()
+		if !sc.Done() || sc.Err != nil {
+			kit.Failf("setup", "Send %d: done=%v %s", i, sc.Done(), kit.ErrName(sc.Err))
+		}
+	}
+	for i, p := range pipes {
+		if p.SendersWaiting() != 1 {
+			kit.Failf("setup", "peer %d is not busy (%d writes in progress)", i, p.SendersWaiting())
+		}
+	}
+	want := "occupies-0"
+	if how == 0 {
+		kit.Sleep(R + time.Millisecond)
+		kit.Quiesce()
+	} else {
+		c, err := s.OpenContext()
+		if err != nil {
+			kit.Failf("setup", "OpenContext: %v", err)
+		}
+		want = "from-another-context"
+		sc := kit.Start("Send", func() (interface{}, error) { return nil, kit.SendBytes(c, []byte(want)) })
+		kit.Quiesce()
+		_ = sc
+	}
+	nb := ep.Connect()
+	nb.Hold(false)
+	kit.Quiesce()
+	var got []string
+	for _, sm := range nb.SentLog() {
+		if len(sm.Data) < 4 || sm.Data[0]&0x80 == 0 {
+			kit.Failf("tx-bytes-differ", "the newcomer was sent %x: no request id", sm.Data)
+		}
+		got = append(got, string(sm.Data[4:]))
+	}
+	found := false
+	for _, g := range got {
+		if g == want {
+			found = true
+		}
+	}
+	if !found {
+		kit.Failf("waiting-request-not-sent-to-newcomer", "%d peer(s) connected, all busy (their writes have not completed); %s; a new peer connected and reads everything: it was sent %q, want %q among it", busy,
+			[]string{"the retry interval of the first request elapsed", "another context sent a request"}[how], got, want)
+	}
+	kit.Count("waiting-request-went-to-the-newcomer")
+	kit.Observe("%d %d %q", busy, how, got)
+	kit.Must("Close", func() { _ = s.Close() })
+}
 
 // SlowPeerHist is also registered under C11 (robustness of the request state machine).
 func SlowPeerHist(depth int) {
